@@ -115,6 +115,7 @@ class TridonicGW:
         self.pending = []       # reports not yet delivered on channel 0
         self.observe = []       # foreign-traffic reports (channel 1), filled by scenarios
         self.inits = getattr(self, "inits", [])
+        self.epoch = len(getattr(self, "wire", []))     # index of the first frame transmitted after this (re)opening
 
     def on_write(self, data):
         self.w.raw_writes.append(bytes(data))
@@ -165,6 +166,7 @@ class HassebGW:
         self.pending = []
         self.observe = []
         self.last = None
+        self.epoch = len(getattr(self, "wire", []))
 
     @staticmethod
     def expects_answer(v):
